@@ -317,7 +317,11 @@ def run(tier):
     cal_subjects = [('MatchingDecoder', 'RotatedPlanar2DCode', (2, 2), {}),
                     ('BeliefPropagationOSDDecoder', 'RotatedPlanar2DCode', (2, 2), {'max_bp_iter': 8, 'osd_order': 0}),
                     ('BeliefPropagationOSDDecoder', 'RotatedToric3DCode', (2, 2, 1), {'max_bp_iter': 8, 'osd_order': 0}),
-                    ('BeliefPropagationOSDDecoder', 'Planar3DCode', (1, 2, 2), {'max_bp_iter': 8, 'osd_order': 0})]
+                    ('BeliefPropagationOSDDecoder', 'Planar3DCode', (1, 2, 2), {'max_bp_iter': 8, 'osd_order': 0}),
+                    # decoders that read AND rewrite channel tables while decoding
+                    ('BeliefPropagationOSDDecoder', 'RotatedPlanar2DCode', (2, 2),
+                     {'max_bp_iter': 8, 'osd_order': 0, 'channel_update': True}),
+                    ('MemoryBeliefPropagationDecoder', 'RotatedPlanar2DCode', (2, 2), {'max_bp_iter': 5})]
     if tier != 'quick':
         cal_subjects += [('MatchingDecoder', 'Planar2DCode', (2, 2), {}),
                          ('BeliefPropagationOSDDecoder', 'Planar2DCode', (2, 2), {'max_bp_iter': 8, 'osd_order': 0})]
